@@ -144,6 +144,54 @@ def curOf (v : C22.View) (s : Nat) : Int := C22.curNonce v s
 def setAssoc (l : List (Nat × Int)) (k : Nat) (v : Int) : List (Nat × Int) :=
   (l.filter (fun e => e.1 != k)) ++ [(k, v)]
 
+/-! trace validation of concurrent bursts (DESIGN.md 1.6a) -/
+
+/-- One invocation observed by the harness: global stamps of call and return, the sub-op, the response. -/
+structure Ev where
+  start : Nat
+  fin   : Nat
+  op    : List String
+  resp  : String
+
+def parseEv (s : String) : Option Ev :=
+  match s.splitOn " => " with
+  | [l, r] =>
+    match Wire.words l with
+    | a :: b :: op => do
+      let a ← a.toNat?
+      let b ← b.toNat?
+      pure ⟨a, b, op, String.intercalate " " (Wire.words r)⟩
+    | _ => none
+  | _ => none
+
+/-- The model's atomic step for one burst sub-op: new pool and response. -/
+def applyEv (st : St) (p : Pool) (e : Ev) : Option (Pool × String) :=
+  match e.op with
+  | ["push", t] =>
+    ((tId t).bind (findDef st)).map (fun d =>
+      let (p', r) := push st.cfg p d.tx st.now
+      (p', r.toString))
+  | "rm" :: ts => some (removeTxs p (knownIds st (tIds ts)), "ok")
+  | "rmblock" :: ts => some (removeTxs p (knownIds st (tIds ts)), "ok")
+  | ["sweep"] => some (removeExpired st.cfg p st.now, "ok")
+  | ["size"] => some (p, toString p.q.length)
+  | ["txnum", s] => s.toNat?.map (fun s => (p, toString (accNum p.acc s)))
+  | _ => none
+
+/-- `accepts`: is there a linearisation compatible with the real-time order (an invocation that
+returned before another was called comes first) in which every response is the model's and the
+final state prints as `final`?  Returns the final pool of the first such linearisation. -/
+def searchLin (st : St) (final : String) : Nat → Pool → List Ev → Option Pool
+  | 0, p, evs => if evs.isEmpty && dump p == final then some p else none
+  | fuel + 1, p, evs =>
+    if evs.isEmpty then (if dump p == final then some p else none)
+    else
+      (evs.filter (fun e => evs.all (fun f => f.start == e.start || !(f.fin < e.start)))).findSome? (fun e =>
+        match applyEv st p e with
+        | some (p', r) =>
+          if r == e.resp then searchLin st final fuel p' (evs.filter (fun f => f.start != e.start)) else none
+        | none => none)
+
 /-! the interpreter -/
 
 def handle (st : St) (line : String) : St × String :=
@@ -249,6 +297,20 @@ def handle (st : St) (line : String) : St × String :=
       let p' := removeExpired st.cfg st.pool st.now
       ({ st with pool := p' }, withDump "ok" p')
     | "q" => (st, dump st.pool)
+    | "burst" =>
+      let parts := post.splitOn " ;; "
+      match parts.getLast? with
+      | some fin =>
+        if !fin.startsWith "final " then (st, "bad-op") else
+        let final := (fin.drop 6).toString
+        match (parts.dropLast).mapM parseEv with
+        | some evs =>
+          if evs.length > 6 then (st, "bad-op") else
+          match searchLin st final evs.length st.pool evs with
+          | some p' => ({ st with pool := p' }, withDump "accepted" p')
+          | none => (st, "no-linearisation")
+        | none => (st, "bad-op")
+      | none => (st, "bad-op")
     | "txlist" =>
       match args with
       | c :: rest => match Wire.parseInt? c with
